@@ -11,7 +11,7 @@ import itertools
 
 import numpy as np
 
-from .. import impl
+from .. import impl, traces
 from ..core import Result
 from ..ref import hop
 
@@ -37,24 +37,13 @@ ASSUMPTIONS = [
 ]
 
 BOUNDS = {
-    # (atoms, sites, max frames)
-    'quick': [(1, 3, 5), (2, 2, 3), (1, 1, 7)],
-    'thorough': [(1, 3, 7), (2, 2, 4), (3, 2, 3), (1, 1, 10), (1, 4, 5)],
+    'quick': [dict(A=1, S=3, Lmax=5), dict(A=2, S=2, Lmax=3), dict(A=1, S=1, Lmax=7)],
+    'thorough': [dict(A=1, S=3, Lmax=7), dict(A=2, S=2, Lmax=4), dict(A=3, S=2, Lmax=3), dict(A=1, S=1, Lmax=10), dict(A=1, S=4, Lmax=5)],
 }
-SHARD_TARGET = 20000
 
 
 def shards(tier, seed):
-    out = []
-    for A, S, Lmax in BOUNDS[tier]:
-        nf = len(hop.frame_alphabet(A, S))
-        for L in range(2, Lmax + 1):
-            plen = 0
-            while nf ** (L - plen) > SHARD_TARGET and plen < L - 1:
-                plen += 1
-            for prefix in itertools.product(range(nf), repeat=plen):
-                out.append({'A': A, 'S': S, 'L': L, 'prefix': list(prefix)})
-    return out
+    return traces.make_shards(BOUNDS[tier], 2500 if tier == 'quick' else 20000)
 
 
 def check_trace(trace, S, res: Result | None = None):
@@ -123,28 +112,22 @@ def check_trace(trace, S, res: Result | None = None):
 
 def run_shard(shard) -> Result:
     res = Result()
-    A, S, L = shard['A'], shard['S'], shard['L']
-    frames = hop.frame_alphabet(A, S)
-    prefix = [frames[k] for k in shard['prefix']]
-    rest = L - len(prefix)
+    S = shard['S']
     impl.clear_weak_caches()
-    for n, tail in enumerate(itertools.product(frames, repeat=rest)):
-        trace = [list(f) for f in prefix] + [list(f) for f in tail]
+    for n, trace in enumerate(traces.iter_shard(shard)):
         viols, key = check_trace(trace, S)
         res.evals += 1
         res.traces += 1
-        res.transitions += rest  # edges of the execution tree below the shard prefix (amortised)
         res.outcome(hash(key))
         for kind, detail in viols:
             res.violation(kind, {'trace': trace, 'n_sites': S}, detail)
         if n == 0:
-            res.sample({'trace': trace, 'n_sites': S, 'events': [list(k) for k in key] if key and isinstance(key[0], tuple) else list(key)})
+            res.sample({'trace': trace, 'n_sites': S, 'events_or_outcome': [list(k) if isinstance(k, tuple) else k for k in key]})
         if n % 4096 == 0:
             impl.clear_weak_caches()
-    # nodes of the execution tree under this shard's prefix
-    nf = len(frames)
-    res.states += sum(nf**k for k in range(1, rest + 1)) + (1 if not prefix else 0)
-    res.stats[f'traces_A{A}_S{S}_L{L}'] += res.evals
+    res.states += traces.tree_nodes(shard)
+    res.transitions += traces.tree_nodes(shard)
+    res.stats[f'traces_A{shard["A"]}_S{S}_L{shard["L"]}'] += res.evals
     return res
 
 
